@@ -1940,6 +1940,10 @@ def rre_specs(draw) -> dict:
             "candidates": candidates, "steps": steps}
 
 
+# further modules (pfam2go, tfbs_finder, t2pks, terpene, active site finder, smcog trees, the four RiPP precursor
+# modules, cassis, ...) live in the helper module; it fetches the shared helpers above lazily
+from vlib import c11_modules as more  # noqa: E402  pylint: disable=wrong-import-position
+
 SUBCHECKS = {
     "rules": check_rules,
     "sideload": check_sideload,
@@ -1949,6 +1953,7 @@ SUBCHECKS = {
     "tta": check_tta,
     "rre": check_rre,
 }
+SUBCHECKS.update(more.SUBCHECKS)
 
 
 def _sig_definition_order(sub: str, spec: dict, clause: str, detail) -> bool:
@@ -1963,6 +1968,7 @@ def _sig_definition_order(sub: str, spec: dict, clause: str, detail) -> bool:
 
 
 SIGNATURES = {"definition_domains_order": _sig_definition_order}
+SIGNATURES.update(more.SIGNATURES)
 
 
 def run(ctx) -> None:
@@ -1974,3 +1980,4 @@ def run(ctx) -> None:
     ctx.hyp("tta", tta_specs(), max_examples=ctx.pick(700, 15000), shards=shards)
     ctx.hyp("hmmresult", hmmresult_specs(), max_examples=ctx.pick(1000, 16000), shards=shards)
     ctx.hyp("rre", rre_specs(), max_examples=ctx.pick(600, 12000), shards=shards)
+    more.run(ctx, shards)
